@@ -143,7 +143,8 @@ def stepStr (acc : Bool) (m : M) (o : Outcome) : String :=
 def machineOfJson (j : Json) : Except String M := do
   let init ← j.getObjVal? "init" >>= resultsOfJson
   let aux := (j.getObjVal? "aux" >>= resultsOfJson).toOption.getD []
-  pure ⟨construct init, construct aux⟩
+  -- without auxiliary operand collection this is `start init`, the initial machine of the history theorems
+  pure (if aux.isEmpty then start init else ⟨construct init, construct aux⟩)
 
 def opsOfJson (j : Json) : Except String (List Op) := do
   (← j.getArr?).toList.mapM opOfJson
